@@ -59,6 +59,9 @@ CF = "ast2ast.constantfolder.ConstantFolder"
 
 
 def run(ctx: Ctx):
+    from .. import memo as _memo
+
+    ctx.section(_memo.check_memo_keys, ctx, ('ast2ast.', 'ast2logic.', 'types.'))
     repo = ctx.repo
     te, ts = repo.func(TE), repo.func(TS)
     ctx.section(check_closed, ctx, te, ts)
